@@ -25,6 +25,8 @@ func init() {
 			{ID: "C04.R6", Floor: 2, Doc: "skip-metadata uses the prepared statement's result metadata and the response's paging state", Run: c04r6},
 			{ID: "C04.R7", Floor: 10, Doc: "what a parser reads from the frame is stored into the value it returns, never into a per-iteration copy of an element", Run: c04r7},
 			{ID: "C04.R8", Floor: 2, Doc: "row scanning: the destinations handed to scanColumn start at the running count of destinations already filled (a tuple column fills several)", Run: c04r8},
+			{ID: "C04.R9", Floor: 2, Doc: "a received body is decompressed exactly when the header that was just read says so (=C18.R3)", Run: c18r3},
+			{ID: "C04.R10", Floor: 3, Doc: "scanColumn hands every cell, null ones included, to Unmarshal unless the caller passed a nil destination", Run: c04r10},
 		},
 	})
 }
@@ -1155,5 +1157,61 @@ func c04r8(p *Program, r *Report) {
 	})
 	if n < 2 {
 		r.Unresolved("expected scanColumn to be called by Iter.Scan and by the scanner, found %d call(s)", n)
+	}
+}
+
+// c04r10: a null cell must reach Unmarshal: that is what resets a reused destination (zero value, nil pointer) and
+// what makes a null tuple column fill all its destinations. The only column scanColumn may skip is one whose
+// destination the caller left nil. Every success return without a preceding Unmarshal call is therefore dominated by
+// `dest[0] == nil` and by nothing that depends on the cell's bytes.
+func c04r10(p *Program, r *Report) {
+	fi := r.NeedFunc("scanColumn")
+	if fi == nil {
+		return
+	}
+	g := p.GraphOf(fi)
+	info := g.Info
+	cell := paramObj(info, fi.Decl.Type, 0)
+	ef := g.Events(func(st Step) []string {
+		if st.Kind != StNode {
+			return nil
+		}
+		for _, c := range callsIn(st.Node) {
+			if isCallTo(info, c, "Unmarshal") {
+				return []string{"unmarshal"}
+			}
+		}
+		return nil
+	})
+	facts := g.GuardFacts()
+	n := 0
+	for _, e := range g.Exits() {
+		rs, ok := e.Node.(*ast.ReturnStmt)
+		if !ok || len(rs.Results) != 2 || !isNil(info, rs.Results[1]) {
+			continue
+		}
+		n++
+		s, _ := ef.ExitState(e)
+		if s.Must["unmarshal"] {
+			r.OK(rs, "scanColumn success return "+exprStr(rs.Results[0])+" after Unmarshal", "the cell was handed to Unmarshal")
+			continue
+		}
+		f, _ := facts.Before(rs)
+		skipNil, dependsOnCell := false, ""
+		for atom, v := range f.m {
+			a := strings.ReplaceAll(atom, " ", "")
+			if v && (strings.HasSuffix(a, "[0]==nil") || strings.HasPrefix(a, "nil==") && strings.HasSuffix(a, "[0]")) && !(cell != nil && mentions(atom, cell.Name())) {
+				skipNil = true
+			}
+			if cell != nil && mentions(atom, cell.Name()) {
+				dependsOnCell = atom
+			}
+		}
+		// a disjunction `dest[0] == nil || p == nil` leaves no single atom: then nothing is known and the return is unjustified
+		r.Check(skipNil && dependsOnCell == "", rs, "scanColumn skips a column only when the caller left its destination nil", "dest[0] == nil known, nothing about the cell's bytes",
+			"scanColumn reports a column as scanned without handing the cell to Unmarshal on a path that is not (only) guarded by a nil destination"+ifs(dependsOnCell != "", " (it depends on "+dependsOnCell+")", "")+": a null cell leaves the previous row's value in a reused destination, and a null tuple column advances the destinations by 1 instead of by the number of its elements")
+	}
+	if n == 0 {
+		r.Unresolved("scanColumn has no success return")
 	}
 }
